@@ -34,6 +34,7 @@ access(all) contract C {
   access(all) enum E: UInt8 { access(all) case x; access(all) case y }
   access(all) resource R { access(all) let n: Int; init(n: Int) { self.n = n } }
   access(all) attachment A for S { access(all) let k: Int; init() { self.k = 4 } }
+  access(all) struct K { access(all) let m: {E: Int}; access(all) let l: [S2]; init(m: {E: Int}, l: [S2]) { self.m = m; self.l = l } }
 }`
 
 type argRow struct {
